@@ -12,7 +12,9 @@ import (
 	"bufio"
 	"encoding/binary"
 	"fmt"
+	"go.nanomsg.org/mangos/v3/protocol"
 	"io"
+	"mangosverif/mproto"
 	"math/rand"
 	"net"
 	"net/http"
@@ -795,6 +797,58 @@ func pipeAddress(tr string) (bool, string) {
 	}
 }
 
+// lateHandshakeDuringClose: a connection whose handshake completes while Socket.Close is running (the protocol's Close takes
+// its time) is closed like every other one: after Close has returned the peer sees the connection go.
+// Returns (Close returned within 5 s, the peer saw the connection closed within 3 s).
+func lateHandshakeDuringClose() (bool, bool, string) {
+	ln, err := net.Listen("tcp", "127.0.0.1:0")
+	if err != nil {
+		return false, false, "listen: " + err.Error()
+	}
+	defer ln.Close()
+	pr := mproto.New()
+	pr.CloseEntered, pr.CloseGate = make(chan struct{}), make(chan struct{})
+	sock := protocol.MakeSocket(pr)
+	_ = sock.SetOption(mangos.OptionDialAsynch, true)
+	if err := sock.Dial("tcp://" + ln.Addr().String()); err != nil {
+		return false, false, "Dial: " + err.Error()
+	}
+	c, err := ln.Accept()
+	if err != nil {
+		return false, false, "Accept: " + err.Error()
+	}
+	defer c.Close()
+	hb := make([]byte, 8)
+	_ = c.SetReadDeadline(time.Now().Add(2 * time.Second))
+	if _, err := io.ReadFull(c, hb); err != nil { // the dialer's header; ours is withheld
+		return false, false, "reading the dialer's header: " + err.Error()
+	}
+	closed := make(chan struct{})
+	go func() { _ = sock.Close(); close(closed) }()
+	select {
+	case <-pr.CloseEntered:
+	case <-time.After(3 * time.Second):
+		return false, false, "the protocol's Close was never called"
+	}
+	// now, with the protocol's Close in progress, the handshake completes
+	_, _ = c.Write([]byte{0, 'S', 'P', 0, byte(pr.SelfNum >> 8), byte(pr.SelfNum), 0, 0})
+	time.Sleep(30 * time.Millisecond)
+	close(pr.CloseGate)
+	select {
+	case <-closed:
+	case <-time.After(5 * time.Second):
+		return false, false, "Socket.Close did not return"
+	}
+	_ = c.SetReadDeadline(time.Now().Add(3 * time.Second))
+	one := make([]byte, 1)
+	if _, err := c.Read(one); err == nil {
+		return true, false, "the closed socket sent data"
+	} else if ne, ok := err.(net.Error); ok && ne.Timeout() {
+		return true, false, "3 s after Close returned the connection that completed its handshake during Close is still open"
+	}
+	return true, true, ""
+}
+
 // send side: what Send writes for a header and a body
 func runSend(r *rand.Rand) string {
 	ipc := r.Intn(2) == 0
@@ -946,6 +1000,15 @@ func main() {
 			fmt.Fprintln(os.Stderr, "stream: silent peers", tr, note)
 		}
 		late = append(late, fmt.Sprintf("(%q, %s, true)%s", "connections that stay silent before their handshake do not delay the next peer ("+tr+")", coqgen.Bool(ok), n))
+	}
+	{
+		ret, gone, note := lateHandshakeDuringClose()
+		n := ""
+		if note != "" {
+			n = " (* " + note + " *)"
+			fmt.Fprintln(os.Stderr, "stream: late handshake during Close:", note)
+		}
+		late = append(late, fmt.Sprintf("(%q, %s, %s)%s", "a connection whose handshake completes while Socket.Close is running is closed too", coqgen.Bool(ret), coqgen.Bool(gone), n))
 	}
 	for _, tr := range []string{"tcp", "tls+tcp", "ws", "wss"} {
 		ok, note := pipeAddress(tr)
